@@ -526,3 +526,53 @@ Proof.
         rewrite R2. reflexivity.
       * split; [exact NDH2|]. split; [exact SM2 | exact NS].
 Qed.
+
+Lemma renamed_find m cols k' f :
+  NoDup (d_keys cols) -> d_find (renamed m cols) k' = Some f ->
+  exists k, k' = subst m k /\ d_find cols k = Some f.
+Proof.
+  intros ND H. apply d_find_In in H. unfold renamed in H. apply in_map_iff in H.
+  destruct H as ([k x] & E & I). cbn [fst snd] in E. inversion E; subst.
+  exists k. split; [reflexivity | apply In_d_find; assumption].
+Qed.
+
+Lemma renamed_keys m cols : d_keys (renamed m cols) = map (subst m) (d_keys cols).
+Proof. unfold d_keys, renamed. rewrite !map_map. reflexivity. Qed.
+
+(* outcome of a rename on a linked frame of a consistent state *)
+Theorem df_rename_outcome c g m s s' r :
+  fix_a c = true -> Inv s -> linked s g -> df_rename c g m s = (s', r) ->
+  Inv s' /\
+  (is_ok r = false -> s' = s) /\
+  (is_ok r = true ->
+     py_cols s' g = renamed m (py_cols s g) /\ same_map (py_cols s' g) (h5_grp s' g) /\
+     (forall x, x <> g -> py_cols s' x = py_cols s x /\ h5_grp s' x = h5_grp s x) /\
+     (forall i, py_dfs s' i = py_dfs s i) /\ (forall i, h5_root s' i = h5_root s i) /\
+     (forall x, py_name s' x = py_name s x) /\ (forall f, py_valid s' f = py_valid s f) /\
+     (forall f, fld_type s' f = fld_type s f) /\ (forall f, fld_data s' f = fld_data s f)).
+Proof.
+  intros FA I L E. pose proof (ib_df _ (proj2 I) g L) as DG.
+  destruct (df_rename_run c g m s FA DG) as [[e R]|(s1 & SB & R & NDH & SM & NS)]; rewrite R in E; inversion E; subst.
+  - split; [exact I|]. split; [reflexivity | cbn; discriminate].
+  - destruct SB as [b1 b2 b3 b4 b5 b6 b7 b8 b9 b10 b11].
+    split; [|split; [cbn; discriminate|]].
+    + destruct I as [IA IB]. split.
+      * eapply InvA_ext; [| | | |exact IA]; cbn; auto.
+      * eapply (recol_InvB s _ g IB L); cbn [next_id h5_root h5_grp py_cols py_valid py_fdf set_py_cols].
+        -- exact b1.
+        -- exact b2.
+        -- intros x NE. rewrite fupd_other by exact NE. split; [apply b3; exact NE | apply b9].
+        -- exact b10.
+        -- exact b11.
+        -- rewrite fupd_same, renamed_keys. exact NS.
+        -- exact NDH.
+        -- rewrite fupd_same. intros k. symmetry. apply SM.
+        -- rewrite fupd_same. intros k' f H. destruct (renamed_find _ _ _ _ (dk_nd_py _ _ DG) H) as (k & _ & F). eauto.
+        -- rewrite fupd_same. intros a b f Ha Hb.
+           destruct (renamed_find _ _ _ _ (dk_nd_py _ _ DG) Ha) as (k1 & -> & F1).
+           destruct (renamed_find _ _ _ _ (dk_nd_py _ _ DG) Hb) as (k2 & -> & F2).
+           destruct (ib_uniq _ IB g g k1 k2 f L L F1 F2) as [_ ->]. reflexivity.
+    + intros _. cbn. rewrite fupd_same. split; [reflexivity|]. split; [intros k; symmetry; apply SM|].
+      split; [intros x NE; rewrite fupd_other by exact NE; split; [apply b9 | apply b3; exact NE]|].
+      repeat split; auto.
+Qed.
